@@ -129,9 +129,22 @@ func (o *Overlay) AddContent(tag, repoRel string, content []byte) error {
 	return nil
 }
 
+// Write emits the overlay JSON. If VERIF_EXTRA_OVERLAY names a JSON file of the
+// form {"Replace": {"/repo/<file>": "<replacement>"}} its entries are merged in
+// (used to try the checks against mutated copies of repo files without ever
+// touching /repo). An extra entry for a file that the check instruments itself
+// is applied *before* instrumentation by the instrumenting check (see
+// SourceFor), never silently dropped.
 func (o *Overlay) Write(tag string) (string, error) {
 	p := filepath.Join(OverlayDir, tag+".json")
-	b, _ := json.MarshalIndent(map[string]any{"Replace": o.Replace}, "", " ")
+	merged := map[string]string{}
+	for k, v := range ExtraOverlay() {
+		merged[k] = v
+	}
+	for k, v := range o.Replace {
+		merged[k] = v
+	}
+	b, _ := json.MarshalIndent(map[string]any{"Replace": merged}, "", " ")
 	old, _ := os.ReadFile(p)
 	if !bytes.Equal(old, b) {
 		if err := os.WriteFile(p, b, 0o644); err != nil {
@@ -139,6 +152,42 @@ func (o *Overlay) Write(tag string) (string, error) {
 		}
 	}
 	return p, nil
+}
+
+var extraOnce sync.Once
+var extraOverlay map[string]string
+
+// ExtraOverlay returns the entries of $VERIF_EXTRA_OVERLAY (may be empty).
+func ExtraOverlay() map[string]string {
+	extraOnce.Do(func() {
+		extraOverlay = map[string]string{}
+		p := os.Getenv("VERIF_EXTRA_OVERLAY")
+		if p == "" {
+			return
+		}
+		b, err := os.ReadFile(p)
+		if err != nil {
+			Logf("VERIF_EXTRA_OVERLAY unreadable: %v", err)
+			return
+		}
+		var f struct{ Replace map[string]string }
+		if err := json.Unmarshal(b, &f); err != nil {
+			Logf("VERIF_EXTRA_OVERLAY invalid: %v", err)
+			return
+		}
+		extraOverlay = f.Replace
+	})
+	return extraOverlay
+}
+
+// SourceFor returns the path of the source to use for a repo file: the extra
+// overlay's replacement if there is one, else the file in /repo.
+func SourceFor(repoRel string) string {
+	abs := filepath.Join(RepoDir, repoRel)
+	if r, ok := ExtraOverlay()[abs]; ok {
+		return r
+	}
+	return abs
 }
 
 var buildMu sync.Mutex
@@ -186,7 +235,10 @@ func BuildGrog(name string, ov *Overlay) (string, error) {
 	defer buildMu.Unlock()
 	bin := filepath.Join(BinDir, name)
 	args := []string{"build", ModFileFlag(), "-o", bin}
-	if ov != nil && len(ov.Replace) > 0 {
+	if ov == nil && len(ExtraOverlay()) > 0 {
+		ov = NewOverlay()
+	}
+	if ov != nil && (len(ov.Replace) > 0 || len(ExtraOverlay()) > 0) {
 		ovPath, err := ov.Write(name)
 		if err != nil {
 			return "", err
